@@ -306,6 +306,10 @@ pub fn execute(case: &Value, scratch: &str) -> Outcome {
         }
     }
     let dest_existing = dest_existing || (api == "set_password" && case["same_path"].as_bool().unwrap_or(false));
+    if case["tmp_exists"].as_bool().unwrap_or(false) {
+        // a stale temporary sibling from an earlier, interrupted save
+        let _ = std::fs::write(format!("{}/out.{}tmp", root, ext), b"stale temporary file");
+    }
 
     shim::arm(ShimState::new(&root, &dest, plan.clone()));
     let result = guarded(|| {
@@ -599,6 +603,7 @@ pub fn cases(run_seed: u64, tier: &str, scratch: &str) -> Vec<Value> {
     base["csv"] = json!({"enc": sw.below(10), "trim": sw.chance(1, 2), "wrap": wrap});
     base["faults"] = json!([]);
     base["same_path"] = json!(api == "set_password" && sw.chance(1, 3));
+    base["tmp_exists"] = json!(sw.chance(1, 5));
     let mut out: Vec<Value> = Vec::new();
 
     if SINK_APIS.contains(&api) {
